@@ -10,6 +10,9 @@ os.chdir(VERIF)
 WRAPPER_PROPS = ('C01', 'C02', 'C05', 'C06', 'C07', 'C08', 'C15', 'C16', 'C18')
 
 
+BOUNDED = {'C19': 'checks.c19_validate'}
+
+
 def main(argv):
     if len(argv) >= 2 and argv[0] == '--replay':
         return replay(argv[1])
@@ -24,12 +27,24 @@ def main(argv):
     if prop in WRAPPER_PROPS:
         from checks import wrapperprops
         return wrapperprops.check(prop, tier, seed)
+    if prop in BOUNDED:
+        from checks import boundedcheck
+        return boundedcheck.check(prop, BOUNDED[prop], tier, seed)
     print('no check registered for %s' % prop)
     return 3
 
 
 def replay(path):
     doc = json.load(open(path))
+    if doc.get('replay_kind') == 'bounded':
+        mod = __import__(doc['module'], fromlist=['x'])
+        still, text = mod.replay(doc['witness'])
+        print(text)
+        if still:
+            print('REPRODUCED: %s [%s] is violated by the real code on this input' % (doc.get('obligation'), doc.get('witness_class')))
+            return 1
+        print('not reproduced')
+        return 0
     if doc.get('replay_kind') == 'cache':
         from contracts import cache_replay as CR
         w = doc['cache_witness']
